@@ -4,7 +4,7 @@ RPCs = {1, 2, 3}
 MaxUpdates = 3
 Eager = FALSE
 MaxMult = 2
-Mutant = 1
+Mutant = 3
 INIT Init
 NEXT Next
 INVARIANT I_SelectedInConfig
